@@ -7,15 +7,19 @@ M1  ObsPrep_MC: the shape-and-content algebra over the grid (Box of rank 0..4 wi
     BatchConsistency, MemberWise, VectDef, HomoRowMap, RoundTrip, CriticMap, Total.
 M2(a) every case is dumped by TLC with its expected result and replayed into the real code:
     preprocess_observation (function, RLAlgorithm method through real DQN agents, MultiAgentRLAlgorithm method
-    through real MADDPG agents, IPPO's grouped method), get_vect_dim, maybe_add_batch_dim,
-    is_vectorized_experiences, assemble_/disassemble_homogeneous_outputs (real IPPO agents),
-    stack_critic_observations (real MADDPG / MATD3 agents), concatenate_experiences_into_batches followed by
-    preprocess_observation (IPPO's learn path); inputs as numpy arrays of several dtypes, tensors, TensorDicts,
-    Python numbers.  Shape and content compared exactly.
-Consequence clause: real DQN agents (tiny networks without normalisation layers, and AgileRL's default network
-    configuration) report the same q-values / greedy action for an observation alone, as a batch of one and
-    inside batches with other companions; MADDPG / MATD3 actions and IPPO value estimates per (agent, env) do not
-    depend on the number of environments, the other agents' observations or the order of the observation dict.
+    through real MADDPG (thorough) / IPPO-bound (quick) agents, IPPO's grouped method), get_vect_dim,
+    maybe_add_batch_dim, is_vectorized_experiences, assemble_/disassemble_homogeneous_outputs (real IPPO agents),
+    stack_critic_observations (real MADDPG / MATD3 agents); inputs as numpy arrays of several dtypes, tensors,
+    TensorDicts, Python numbers.  Shape and content compared exactly.  IPPO's learn path
+    (concatenate_experiences_into_batches -> minibatch -> preprocess_observation) is exercised by running the real
+    IPPO.learn on (step, env) blocks and observing the tensor the shared actor receives.
+    Negative controls: three wrong variants of the algebra (squeezed batch-of-one, scaling by `high`, env-major
+    disassembly) must be rejected by TLC.
+Consequence clause: real DQN / PPO agents (tiny networks without normalisation layers, and AgileRL's default
+    network configuration) report the same q-values / greedy action / value estimate for an observation alone, as a
+    batch of one and inside batches with other companions (q-values are observed inside get_action, not recomputed);
+    MADDPG / MATD3 actions and IPPO value estimates per (agent, env) do not depend on the number of environments,
+    the other agents' observations or the order in which the observation dict lists the agents.
 """
 from __future__ import annotations
 
@@ -23,6 +27,7 @@ import json
 import time
 
 from .. import tlc
+from ..core import Vacuous
 
 
 def run(ctx):
@@ -35,6 +40,15 @@ def run(ctx):
     sfx = "q" if quick else ""
     ctx.mc("ObsPrep_MC", f"ObsPrep_MC{sfx}.cfg",
            must_cover=["Encode", "Batch", "AssembleAct", "DisassembleAct", "StackAct"])
+    # negative controls: the invariants reject a squeezed batch-of-one dimension, scaling by `high` only, and
+    # homogeneous outputs taken apart in (env, agent) order
+    neg = {}
+    for variant, inv in (("squeeze1", "LeadingBatch"), ("normhigh", "ScaleDef"), ("envmajor", "RoundTrip")):
+        n = tlc.model_check("ObsPrep_MC", f"ObsPrep_Neg_{variant}.cfg", coverage=False)
+        if n.ok or n.violated_name != inv:
+            raise Vacuous(f"negative control {variant}: expected {inv} to be violated, got {n.violated_name or 'no violation'}")
+        neg[variant] = n.violated_name
+    ctx.extra["negative_controls"] = neg
     r = tlc.dump("ObsPrep_MC", f"ObsPrep_Dump{sfx}.cfg")
     cases = [c for c in r.tagged.get("CASE", []) if isinstance(c, dict)]
     if len(cases) * 3 < r.distinct - len(cases) or len(cases) < 1000:
@@ -78,7 +92,7 @@ def run(ctx):
         if len(c["lead"]) == 2:
             report(op.check_vectorized_experiences(c))
             counts["vec_exp"] += 1
-            if c["kind"] == "leaf" and (not quick or i % 2 == 0):
+            if c["kind"] == "leaf" and c["lead"][0] >= 2 and (not quick or i % 2 == 0):
                 report(op.check_learn_batches(c, i))
                 ctx.case(("learn",) + key)
                 counts["learn_batches"] += 1
@@ -99,8 +113,14 @@ def run(ctx):
 
     # ---- consequence clause
     cons = [c for c in prep if len(c["lead"]) == 1 and c["rows"] == 3]
-    if quick:
-        cons = [c for j, c in enumerate(cons) if c["kind"] != "leaf" and j % 6 == 0 or c["kind"] == "leaf" and j % 3 == 0]
+    if quick:       # every (kind, member tags) combination once, plus a sample
+        firsts, sel = set(), []
+        for j, c in enumerate(cons):
+            k = (c["kind"], tuple(op.tag(s) for s in c["subs"]))
+            if k not in firsts or (c["kind"] == "leaf" and j % 3 == 0):
+                firsts.add(k)
+                sel.append(c)
+        cons = sel
     used = 0
     for i, c in enumerate(cons):
         for algo in ("dqn", "ppo") if (not quick or i % 4 == 0) else ("dqn",):
@@ -131,13 +151,15 @@ def run(ctx):
             if ran:
                 ctx.case(("consequence", algo, "default", op.space_descr(c)))
     counts["consequence_dqn"] = used
-    if used < 20:
+    if used < (40 if quick else 150):
         raise tlc.TLCError(f"only {used} consequence-clause cases could be run on real agents")
     for kind in ("vector", "discrete", "image"):
         fails, n = op.check_consequence_ma(ctx.seed, kind)
         report(fails)
         counts["consequence_ma"] += n
         ctx.case(("consequence-ma", kind))
+    if op.INSENSITIVE and not ctx.violations:
+        raise tlc.TLCError(f"vacuity guard: network outputs do not distinguish the observations in {op.INSENSITIVE}")
     ctx.extra["conformance_counts"] = counts
     ctx.extra["real_agents"] = dict(op.AGENT_STATS)
     if op.AGENT_STATS["built"] < 50:
@@ -152,11 +174,55 @@ def run(ctx):
                "and singly batched inputs only and not for plain Python numbers (which have no shape)")
     ctx.assume("image normalisation with infinite bounds is not in the grid (the code documents a bypass)")
     ctx.assume("homogeneous-group round trip is demanded with all members of a group present")
-    ctx.assume("row order of concatenate_experiences_into_batches may be (agent, step, env) or (step, agent, env); its agreement "
-               "with the advantage order is C17's subject")
+    ctx.assume("IPPO learn path: the rows the shared actor receives are compared as a multiset (the minibatch is shuffled); their "
+               "alignment with the advantages is C17's subject; only blocks with at least 2 steps are used")
+    ctx.assume("a rank-0 Box observation may be prepared as (rows,) or (rows, 1) (the network has one input feature)")
+    ctx.assume("numpy scalars of dtype uint16/32/64 are not passed (torch.tensor rejects them; arrays of these dtypes are)")
+    ctx.assume("forward() of the real networks is wrapped for observation only (AgileRL modules bypass torch forward hooks)")
     ctx.assume(f"consequence clause: single-threaded float32 forward passes compared with absolute tolerance {op.TOL}; greedy "
                "actions compared only where the two best q-values differ by more than 10x the tolerance")
     rule = ("case = (space, leading shape, normalisation flag) of the TLC grid, each replayed in every representation "
             "(numpy dtypes, tensor, TensorDict, Python number) through function and agent methods; (group composition, envs, width); "
             "(critic kind, agents, batch, dims); consequence cases = (network config, space); non-trivial = more than one element / agent")
     return "model_checking", rule, False
+
+
+# ------------------------------------------------------------------------------------------ replay
+def replay(path):
+    """Re-run the check that produced a replay file on its stored case; exit 1 if it still fails."""
+    import torch
+
+    torch.set_num_threads(1)
+    from ..drive import obsprep as op
+
+    rp = json.loads(open(path).read())
+    r = rp["replay"]
+    print(f"replaying {rp['signature']}")
+    if r.get("kind") == "tlc-counterexample":
+        print(r.get("text", "")[:6000])
+        return 1
+    chk, c = r.get("check"), r.get("case")
+    if chk == "prep":
+        fails = op.check_prep_case(c, r.get("idx", 0), r.get("thorough", False))
+    elif chk == "ma_prep":
+        fails = op.check_ma_prep(c, r.get("idx", 0), tuple(r.get("algos", ("maddpg", "ippo"))))
+    elif chk == "learn_batches":
+        fails = op.check_learn_batches(c, r.get("idx", 0))
+    elif chk == "vec_exp":
+        fails = op.check_vectorized_experiences(c)
+    elif chk == "homo":
+        fails = op.check_homo_case(c)
+    elif chk == "critic":
+        fails = op.check_critic_case(c)
+    elif chk == "consequence":
+        fails = op.check_consequence_dqn(c, r.get("idx", 0), r.get("default_config", False), r.get("algo", "dqn"))[0]
+    elif chk == "consequence_ma":
+        fails = op.check_consequence_ma(r.get("seed", 0), r.get("spaces_kind", "vector"))[0]
+    else:
+        print("unknown replay kind")
+        return 2
+    same = [f for f in fails if f["sig"] == rp["signature"]]
+    for f in fails:
+        print(("* " if f["sig"] == rp["signature"] else "  ") + f["sig"] + "\n    " + f["what"][:600])
+    print("STILL FAILS" if same else ("OTHER FAILURES ONLY" if fails else "PASSES"))
+    return 1 if same else 0
